@@ -581,20 +581,34 @@ impl Woz2 {
     }
     /// Find track and get a reference
     fn get_trk_ref(&self,track: u8) -> Result<&Trk,img::NibbleError> {
-        return Ok(&self.trks.tracks[self.get_trk_idx(track)?]);
+        match self.trks.tracks.get(self.get_trk_idx(track)?) {
+            // an entry without bits is not a track (and a zero bit count would stall the bit pointer)
+            Some(trk) if trk.bit_count!=[0,0,0,0] => Ok(trk),
+            _ => Err(img::NibbleError::BadTrack)
+        }
+    }
+    /// Get the range of the track bits within the TRKS bit buffer, checking that
+    /// the track's blocks and bit count are within the buffer
+    fn get_trk_bits_rng(&self,track: u8) -> Result<[usize;2],img::NibbleError> {
+        let trk = self.get_trk_ref(track)?;
+        let begin = match (u16::from_le_bytes(trk.starting_block) as usize*512).checked_sub(self.track_bits_offset) {
+            Some(beg) => beg,
+            None => return Err(img::NibbleError::BadTrack)
+        };
+        let end = begin + u16::from_le_bytes(trk.block_count) as usize*512;
+        if end > self.trks.bits.len() || u32::from_le_bytes(trk.bit_count) as usize > (end-begin)*8 {
+            return Err(img::NibbleError::BadTrack);
+        }
+        Ok([begin,end])
     }
     /// Get a reference to the track bits
     fn get_trk_bits_ref(&self,track: u8) -> Result<&[u8],img::NibbleError> {
-        let trk = self.get_trk_ref(track)?;
-        let begin = u16::from_le_bytes(trk.starting_block) as usize*512 - self.track_bits_offset;
-        let end = begin + u16::from_le_bytes(trk.block_count) as usize*512;
+        let [begin,end] = self.get_trk_bits_rng(track)?;
         Ok(&self.trks.bits[begin..end])
     }
     /// Get a mutable reference to the track bits
     fn get_trk_bits_mut(&mut self,track: u8) -> Result<&mut [u8],img::NibbleError> {
-        let trk = self.get_trk_ref(track)?;
-        let begin = u16::from_le_bytes(trk.starting_block) as usize*512 - self.track_bits_offset;
-        let end = begin + u16::from_le_bytes(trk.block_count) as usize*512;
+        let [begin,end] = self.get_trk_bits_rng(track)?;
         Ok(&mut self.trks.bits[begin..end])
     }
     /// Create a lightweight trait object to read/write the bits.  The nibble format will be
